@@ -345,7 +345,7 @@ namespace BitSerializer::Convert::Detail
 				utc.SecFractions = ns;
 			}
 			// Should have 'Z' at the end of UTC datetime
-			if (pos == end || *pos != 'Z') {
+			if (pos == end || *pos != 'Z' || (end - pos > 1 && !std::isspace(pos[1]))) {
 				throw std::invalid_argument("Input string is not a valid ISO datetime: YYYY-MM-DDThh:mm:ss[.SSS]Z");
 			}
 			return utc;
